@@ -73,6 +73,13 @@ mod verif_search {
             let want3 = (a * b + m) % 65521;
             let mut w3 = [0u8; 32]; w3[..16].copy_from_slice(&want3.to_le_bytes());
             if prod.to_padded_32_byte_array_le() != w3 { println!("REPLAY-FAIL c01_arith mul-add-rem a={} b={} m={}", a, b, m); return; }
+            let mut ml = [0u8; 32]; ml[..16].copy_from_slice(&m.to_le_bytes());
+            let lsp = LargeSafePrime::from_le_bytes(ml);
+            let va = Integer::from_bytes_le(&a.to_le_bytes());
+            if va.is_zero() != (a == 0) { println!("REPLAY-FAIL c01_arith is_zero a={}", a); return; }
+            if va.mod_large_safe_prime_is_zero(&lsp) != (a % m == 0) { println!("REPLAY-FAIL c01_arith mod_large_safe_prime_is_zero a={} modulus={}", a, m); return; }
+            let vm = Integer::from_bytes_le(&(m * (1 + b % 7)).to_le_bytes());
+            if !vm.mod_large_safe_prime_is_zero(&lsp) { println!("REPLAY-FAIL c01_arith mod_large_safe_prime_is_zero multiple={} modulus={}", m * (1 + b % 7), m); return; }
         }
         println!("REPLAY-STATS c01_arith inputs={} all-ok", n);
     }
